@@ -7,9 +7,10 @@ EXTENDS Uri, UriHosts, Json
    '/' (reserved) '~' (unreserved mark) ' ' NUL, U+00E9 (2 octets), U+FF14 FULLWIDTH DIGIT FOUR
    (3 octets; a digit for Unicode, not for RFC 3986), U+1F600 (4 octets) *)
 UriAlphabet  == {37, 43, 52, 67, 69, 97, 71, 47, 126, 32, 0, 233, 65300, 128512}
-(* control characters: 'a' '%' '4' '1' LF CR TAB -- every string <= 4, so LF/CR/TAB in every position incl. the
-   last one ("abc\n", "%41\n", "\r\n", "\n\n"), for all functions *)
-CtlAlphabet  == {97, 37, 52, 49, 10, 13, 9}
+(* control characters: 'a' '%' '4' '1' '0' LF CR TAB -- every string <= 4, so LF/CR/TAB in every position incl.
+   the last one ("abc\n", "%41\n", "\r\n", "\n\n"), and the escapes of the lowest octets "%00" (NUL), "%01",
+   "%0a", "%10", for all functions *)
+CtlAlphabet  == {97, 37, 52, 49, 48, 10, 13, 9}
 UriFns       == {"decode", "encode", "encode_value", "encode_check_escaped", "encode_value_check_escaped"}
 (* authority alphabet: 'a' '.' '1' ':' '[' ']' 'v'  ("[v1.a]" is the shortest IPvFuture literal) *)
 HostAlphabet == {97, 46, 49, 58, 91, 93, 118}
